@@ -21,8 +21,14 @@ class ContentNode(Node):
         self.text = text
 
     def __str__(self) -> str:
-        if "{%" in self.text or "{{" in self.text or "{#" in self.text:
-            # Text with markup delimiters in it is the body of a raw block.
+        if (
+            "{%" in self.text
+            or "{{" in self.text
+            or "{#" in self.text
+            or self.text.endswith("{")
+        ):
+            # Text with markup delimiters in it is the body of a raw block. So is text
+            # ending in a brace that would start markup with whatever comes next.
             return f"{{% raw %}}{self.text}{{% endraw %}}"
         return self.text
 
